@@ -142,8 +142,40 @@ def new_program(rom: str | None = None, defines: dict[str, int] | None = None):
     return program
 
 
+class _debug_logging:
+    """The host may have switched logging to DEBUG (x816 --verbose does): every 16th source (by its text) is assembled that way.
+    What a816 logs is no input of what it writes."""
+
+    def __init__(self, src: str):
+        self.on = (len(src) * 31 + sum(src.encode("utf-8", "replace")[:64])) % 16 == 0
+
+    def __enter__(self):
+        if self.on:
+            import logging
+
+            self.root = logging.getLogger()
+            self.saved = (self.root.level, list(self.root.handlers), logging.root.manager.disable)
+            logging.disable(logging.NOTSET)
+            self.root.handlers = [logging.NullHandler()]
+            self.root.setLevel(logging.DEBUG)
+        return self
+
+    def __exit__(self, *exc):
+        if self.on:
+            import logging
+
+            self.root.setLevel(self.saved[0])
+            self.root.handlers = self.saved[1]
+            logging.disable(self.saved[2])
+
+
 def run_program(program, src: str, filename: str = "t.s", writer: Any = None) -> Result:
     """Runs one assembly on an existing Program object (no scratch handling)."""
+    with _debug_logging(src):
+        return _run_program(program, src, filename, writer)
+
+
+def _run_program(program, src: str, filename: str = "t.s", writer: Any = None) -> Result:
     w = writer if writer is not None else RecWriter()
     try:
         err = program.assemble_string_with_emitter(src, filename, w)
